@@ -235,7 +235,18 @@ class Kernel:
 # ----------------------------------------------------------------------------------------- fake modules
 class FakeTime:
     def __init__(self, k):
+        import time as _t
         self.k = k
+        self._real = _t
+
+    def __getattr__(self, name):
+        return getattr(self.__dict__["_real"], name)
+
+    def monotonic(self):
+        return self.k.now
+
+    def perf_counter(self):
+        return self.k.now
 
     def time(self):
         return self.k.now
@@ -332,8 +343,12 @@ class KLock:
 class FakeThreading:
     def __init__(self, k):
         self.k = k
+        self._real = _th
         self.RLock = _th.RLock
         self.current_thread = _th.current_thread
+
+    def __getattr__(self, name):
+        return getattr(_th, name)
 
     def Lock(self):
         return KLock(self.k)
@@ -374,13 +389,17 @@ class FakeSelectors:
     EVENT_WRITE = 2
 
     def __init__(self, k):
+        import selectors as _s
         self.k = k
+        self._real = _s
 
     def DefaultSelector(self):
         return FakeSelector(self.k)
 
 
 class FakeInspect:
+    import inspect as _real
+
     @staticmethod
     def stack():
         return []
@@ -622,10 +641,16 @@ class Net:
 class FakeSocketModule:
     def __init__(self, net):
         self.net = net
+        self._real = _socket
         for n in dir(_socket):
             if n.isupper() or n in ("error", "timeout", "gaierror", "herror"):
                 setattr(self, n, getattr(_socket, n))
         self.inet_aton = _socket.inet_aton
+
+    def __getattr__(self, name):
+        if name.startswith("__"):
+            raise AttributeError(name)
+        return getattr(_socket, name)
 
     def getaddrinfo(self, host, port, *a):
         self.net.resolved.append((host, port) + tuple(a))
@@ -644,62 +669,61 @@ class FakeSocketModule:
         return s
 
 
-_ORIG = {}
+_PATCH = []  # the EnvPatch objects of nested install() calls
+
+
+class FakeTLSContext:
+    """what `ssl.SSLContext(...)` gives the repository's code in tls=True runs: every configuration call is accepted,
+    wrap_socket() marks the fake socket as a TLS socket (record-wise delivery, pending()) - no handshake, no certificates"""
+
+    def __init__(self, *a, **k):
+        import ssl
+        self.check_hostname = True
+        self.verify_mode = ssl.CERT_REQUIRED
+
+    def __getattr__(self, name):
+        if name.startswith("__"):
+            raise AttributeError(name)
+        return lambda *a, **k: None
+
+    def wrap_socket(self, sock, **kw):
+        sock.tls = True
+        sock.tls_hostname = kw.get("server_hostname")
+        return sock
 
 
 def install(k, net, tls=False):
-    import websocket._abnf as B
-    import websocket._app as A
-    import websocket._core as C
-    import websocket._dispatcher as D
-    import websocket._http as H
-    import websocket._socket as S
-    if not _ORIG:
-        _ORIG.update(dict(H_socket=H.socket, A_time=A.time, D_time=D.time, C_time=C.time, D_sel=D.selectors,
-                          S_sel=S.selectors, A_threading=A.threading, A_inspect=A.inspect, D_inspect=D.inspect,
-                          H_ssl=H._ssl_socket, A_sel=getattr(A, "selectors", None), C_threading=C.threading, B_Lock=B.Lock))
-    H.socket = FakeSocketModule(net)
+    """Replace the environment as seen from EVERY loaded websocket.* module, by identity of the real stdlib object (module or
+    function), so that the import style of the repository (`import threading` / `from threading import Lock`, a helper moved
+    to another module) does not matter."""
+    import inspect as _inspect
+    import selectors as _selectors
+    import ssl as _ssl
+    import time as _time
+    from harness.envpatch import EnvPatch, ModProxy
+    ep = EnvPatch()
     ft = FakeTime(k)
-    A.time = ft
-    D.time = ft
-    C.time = ft
+    ep.replace(_time, ft)
+    ep.replace(_time.time, ft.time)
+    ep.replace(_time.sleep, ft.sleep)
+    fth = FakeThreading(k)
+    ep.replace(_th, fth)
+    ep.replace(_th.Lock, fth.Lock)
+    ep.replace(_th.Event, fth.Event)
+    ep.replace(_th.Thread, fth.Thread)
     fs = FakeSelectors(k)
-    D.selectors = fs
-    S.selectors = fs
-    A.threading = FakeThreading(k)
-    C.threading = FakeThreading(k)  # WebSocket.lock / readlock
-    B.Lock = lambda: KLock(k)  # frame_buffer.lock
-    A.inspect = FakeInspect
-    D.inspect = FakeInspect
+    ep.replace(_selectors, fs)
+    ep.replace(_selectors.DefaultSelector, fs.DefaultSelector)
+    ep.replace(_socket, FakeSocketModule(net))
+    ep.replace(_inspect, FakeInspect)
     if tls:
-        def fake_ssl_socket(sock, sslopt, hostname):
-            sock.tls = True
-            sock.tls_hostname = hostname
-            return sock
-        H._ssl_socket = fake_ssl_socket
+        ep.replace(_ssl, ModProxy(_ssl, SSLContext=FakeTLSContext, create_default_context=FakeTLSContext))
+    _PATCH.append(ep)
 
 
 def uninstall():
-    if not _ORIG:
-        return
-    import websocket._abnf as B
-    import websocket._app as A
-    import websocket._core as C
-    import websocket._dispatcher as D
-    import websocket._http as H
-    import websocket._socket as S
-    C.threading = _ORIG["C_threading"]
-    B.Lock = _ORIG["B_Lock"]
-    H.socket = _ORIG["H_socket"]
-    A.time = _ORIG["A_time"]
-    D.time = _ORIG["D_time"]
-    C.time = _ORIG["C_time"]
-    D.selectors = _ORIG["D_sel"]
-    S.selectors = _ORIG["S_sel"]
-    A.threading = _ORIG["A_threading"]
-    A.inspect = _ORIG["A_inspect"]
-    D.inspect = _ORIG["D_inspect"]
-    H._ssl_socket = _ORIG["H_ssl"]
+    while _PATCH:
+        _PATCH.pop().restore()
 
 
 ASSUMPTIONS = [
